@@ -86,6 +86,9 @@ HOSTS_HOSTILE = [
 USERS = ["u", "user", "User%41", "us er", "u:s", "u@s", "ю", "", "a/b", "%7e", "a%2Fb", "+", "u%", "a[b]"]
 PASSWORDS = ["p", "pass", "p:w", "p@w", "пароль", "", "%41", "p/w", "p w", "p%2", "p#w", "p?w"]
 PORTS = [80, 443, 21, 8080, 0, 1, 65535, 8443]
+_SCHEME_PORT = {"http": 80, "https": 443, "ws": 80, "wss": 443, "ftp": 21}
+PORT_TEXTS_HOSTILE = ["8" * 4301, "0" * 4301 + "80", "\u0668\u0660", "\u0663" * 4301, "+80", "-80", " 80", "80 ", "0x50", "8_0", "8e1",
+                      "65536", "080", "\uff18\uff10", "8\u00b2", "\u2460", "1" * 30]
 PORTS_HOSTILE = [65536, -1, 99999999999, True, False]
 PATHS = [
     "/", "", "/a", "/a/b", "/a/b/", "a", "a/b", "/a/../b", "/a/./b", "/..", "/../..", "/a/..", "/a/.",
@@ -160,6 +163,14 @@ INTERNAL_LRUS = [
     ("_url", "encode_url"), ("_url", "pre_encoded_url"), ("_url", "build_pre_encoded_url"), ("_url", "from_parts"),
     ("_url", "_encode_host"), ("_url", "_idna_encode"), ("_url", "_idna_decode"),
     ("_parse", "split_netloc"), ("_parse", "make_netloc"),
+]
+# numbers that compare and hash equal but are not the same value to a formatter
+NUM_FAMILIES = [
+    [0.0, -0.0, 0, 0.0, -0.0],
+    [1, 1.0, True, {"$": "intsub", "v": "1"}, {"$": "floatsub", "v": "1.0"}],
+    [1.5, {"$": "floatsub", "v": "1.5"}, 1.5],
+    [-5, -5.0, {"$": "intsub", "v": "-5"}],
+    [10 ** 20, 1e20, {"$": "bigint", "v": str(10 ** 20)}],
 ]
 LRU_SIZES = [0, 1, 2, 3, 8, 128, None]
 CONFIGURE_SIZES = [0, 1, 2, 5, None, 256, 512]
@@ -324,13 +335,22 @@ _ADDR = _re.compile(r" at 0x[0-9a-fA-F]+")
 SLOTS5 = ("_scheme", "_netloc", "_path", "_query", "_fragment")
 
 
+def _plain(x):
+    """A str subclass instance handed in by the caller may legitimately be stored as it is (the quoters
+    return an unchanged input object); its content, not its exact type, is the stored value -- and results
+    must stay plain data that can cross the process boundary."""
+    if isinstance(x, str) and type(x) is not str:
+        return str.__str__(x)
+    return x
+
+
 def shallow(u):
     """The five stored parts, read without touching the memo."""
     try:
-        return tuple(object.__getattribute__(u, s) for s in SLOTS5)
+        return tuple(_plain(object.__getattribute__(u, s)) for s in SLOTS5)
     except AttributeError:
         try:
-            return ("getstate", tuple(u.__getstate__()[0]))
+            return ("getstate", tuple(_plain(x) for x in u.__getstate__()[0]))
         except Exception as e:  # pragma: no cover
             return ("unreadable", type(e).__name__)
 
@@ -488,6 +508,11 @@ def lru_present():
     return out
 
 
+import functools as _functools
+
+_LRU_PROBE = _functools.lru_cache(1)(lambda: None)
+
+
 def lru_resize(modname, name, size):
     """Re-wrap a pure function's lru_cache with another maxsize; rebind every alias."""
     import functools
@@ -497,6 +522,10 @@ def lru_resize(modname, name, size):
         return False
     f = getattr(mods[modname], name, None)
     if f is None or not hasattr(f, "__wrapped__") or not hasattr(f, "cache_info"):
+        return False
+    if type(f) is not type(_LRU_PROBE):
+        # a hand-written cache: replacing it with functools' would take the code under test out of
+        # the run; its size can only be driven through the public cache_configure() knob
         return False
     # keep every other parameter of the cache (typed keys!): only the size is the knob
     typed = False
@@ -880,6 +909,12 @@ class Atoms:
         self.users = subset(rng, USERS, lo, hi)
         self.passwords = subset(rng, PASSWORDS, lo, hi)
         self.ports = subset(rng, PORTS, lo, hi)
+        # the default port of one of this run's schemes, written out: 'http://h:80' is another spelling of 'http://h'
+        dflt = [_SCHEME_PORT[x.lower()] for x in self.schemes if x.lower() in _SCHEME_PORT]
+        if dflt and rng.random() < 0.6:
+            d = rng.choice(dflt)
+            if d not in self.ports:
+                self.ports[rng.randrange(len(self.ports))] = d
         self.paths = subset(rng, PATHS, lo, hi + 2)
         self.names = subset(rng, NAMES, lo, hi)
         self.suffixes = subset(rng, SUFFIXES, lo, 4)
@@ -891,6 +926,7 @@ class Atoms:
         self.specials = subset(rng, sp, lo, hi + 4)
         self.urls = [self.compose(rng) for _ in range(rng.randint(lo, hi))]
         self.storm_auth = [self.authority(rng) for _ in range(2)]
+        self.nums = NUM_FAMILIES[rng.randrange(len(NUM_FAMILIES))]
         if rng.random() < 0.5:
             # both spellings of one equal value: 'scheme://authority' and 'scheme://authority/'
             sch = rng.choice(self.schemes)
@@ -959,6 +995,10 @@ class Atoms:
         r = rng.random()
         if r < 0.35:
             s = "%s:%s" % (h, rng.choice(self.ports))
+            if rng.random() < self.hostile * 0.5:
+                # port *texts* that int() treats specially: beyond the int<->str digit limit (also with leading
+                # zeros), non-ASCII decimal digits, signs, blanks, underscores, other bases, exponent notation
+                s = "%s:%s" % (h, rng.choice(PORT_TEXTS_HOSTILE))
         elif r < 0.4:
             s = h + ":"
         r = rng.random()
@@ -1021,6 +1061,9 @@ class Atoms:
                                {"$": "bigint", "v": str(2 ** 1024)}, {"$": "bigint", "v": "1" + "0" * 5000}, {"$": "intsub", "v": "1" + "0" * 5000},
                                {"$": "floatsub", "v": "1.5"}, {"$": "floatsub", "v": "inf"}, {"$": "floatsub", "v": "1e308"}])
         if r < 0.72:
+            if rng.random() < 0.6:
+                # this run's family of numbers that are == and hash-equal yet format differently
+                return rng.choice(self.nums)
             return rng.choice([1.5, 0.0, -2.25, 1e300])
         if r < 0.72 + self.hostile * 0.4:
             return rng.choice([True, None, {"$": "float", "v": "nan"}, {"$": "float", "v": "inf"}, {"$": "bytes", "v": "b"}, {"$": "obj"}])
@@ -1171,6 +1214,10 @@ def gen_derivation(rng, at, live, slots=None):
                     kws[k] = at.qvalue(rng)
             if kws:
                 return {"op": name, "on": on, "args": [], "kwargs": kws}
+        if rng.random() < 0.12:
+            # the URL's own query (or that of an equal URL in the pool) handed back to it: `u % u.query`
+            src = [on] + (equal_partners(slots, on, False) if slots is not None else [])
+            return {"op": name, "on": on, "args": [{"$": "qproxy", "v": rng.choice(src)}]}
         if rng.random() < 0.03:
             return {"op": name, "on": on, "args": [] if name != "mod" else ["a=1"], "kwargs": {}}
         if name != "mod" and rng.random() < 0.03:
@@ -1427,12 +1474,23 @@ def gen_variant(rng, ops, candidates, slots=None):
         _leaves(op["kwargs"], ["kwargs"], acc)
     acc = [(p_, v_) for p_, v_ in acc if len(p_) >= 2]
     rng.shuffle(acc)
+    if rng.random() < 0.4:
+        # numbers first: there are few of them among many strings, and they have the richest equal-value families
+        acc.sort(key=lambda pv: not (isinstance(pv[1], (int, float)) and not isinstance(pv[1], bool)))
     for path, val in acc:
         if isinstance(val, dict):  # strsub / enum member -> the plain value
             _set_path(op, path, int(val["v"]) if val.get("$") == "intenum" else val["v"])
             return op
         if isinstance(val, bool):
             _set_path(op, path, int(val))
+            return op
+        if isinstance(val, float):
+            if val == 0.0:
+                _set_path(op, path, -val)  # the other signed zero: equal, same hash, another text
+            elif val == int(val) and abs(val) < 1e15 and rng.random() < 0.6:
+                _set_path(op, path, int(val))
+            else:
+                _set_path(op, path, {"$": "floatsub", "v": repr(val)})
             return op
         if isinstance(val, int):
             r_ = rng.random()
@@ -1503,6 +1561,52 @@ def closure(ops, k):
             # every earlier mutation of a caller-owned container is part of its value at op k
             stack.extend(j for j in range(i + 1, k) if ops[j]["op"] == "mutate" and ops[j].get("on") == i and j not in need)
     return sorted(need)
+
+
+def decouple_operands(op, slots):
+    """A copy of `op` in which every URL operand *role* (the receiver, the other operand, each URL or
+    URL.query passed as an argument) is played by its own unpickled twin, appended to `slots`: equal
+    values, no shared identity, empty memos.  "The outcome is a function of the argument values only":
+    `u.f(u.query)` and `u.f(equal_twin.query)` must agree."""
+    import copy as _c
+    import pickle as _p
+
+    op2 = _c.deepcopy(op)
+
+    def twin(idx):
+        if not isinstance(idx, int) or isinstance(idx, bool) or idx >= len(slots):
+            return idx
+        u = slots[idx]
+        if URL is None or type(u) is not URL:
+            return idx
+        try:
+            memo = object.__getattribute__(u, "_cache")
+            if shallow(u)[1] == "" and memo.get("raw_host") == "":
+                return idx  # open finding F1b (C09): the twin of such a URL reads host None instead of ''
+            t = _p.loads(_p.dumps(u))
+        except Exception:  # noqa
+            return idx
+        slots.append(t)
+        return len(slots) - 1
+
+    for key in ("on", "other"):
+        if op2.get(key) is not None:
+            op2[key] = twin(op2[key])
+
+    def walk(spec):
+        if isinstance(spec, dict):
+            if spec.get("$") in ("url", "qproxy"):
+                spec["v"] = twin(spec["v"])
+                return
+            for v in spec.values():
+                walk(v)
+        elif isinstance(spec, list):
+            for v in spec:
+                walk(v)
+
+    walk(op2.get("args"))
+    walk(op2.get("kwargs"))
+    return op2
 
 
 def remap_ops(ops, keep):
